@@ -110,8 +110,9 @@ func Variants(msaIn io.Reader, stdin bool, refID string, annoIn io.Reader, annoS
 			firstmissing = true
 		case err := <-cErr:
 			return err
-		case <-cMSADone:
-			return errors.New("is the pipe to --msa empty?") // TO DO - does this work/is this necessary?
+			// NB there is no case for cMSADone here: a short alignment can be read to the end
+			// (and so be "done") before the first record is taken from cMSA's buffer, and an
+			// empty pipe is reported by the reader through cErr
 		}
 	}
 
